@@ -4,3 +4,4 @@ import GtirbProofs.Props.C08
 import GtirbProofs.Tables
 import GtirbProofs.Props.C11
 import GtirbProofs.Props.C19
+import GtirbProofs.Props.C14
